@@ -22,6 +22,15 @@ pub fn fill(i: usize) -> u8 {
     (255 - (i % 4)) as u8
 }
 
+/// A reservation made on another, longer fixed target: 3 bytes that start `beyond` bytes in - past the end of the target
+/// it is then used on.
+fn foreign_reservation(beyond: usize) -> Reservation {
+    let mut donor = vec![0u8; beyond + 8];
+    let mut t = SliceOutputTarget::from(donor.as_mut_slice());
+    let _ = t.write_bytes_exact(&vec![0u8; beyond + 2]);
+    t.reserve_space(3).expect("donor reservation")
+}
+
 /// Executes the operations of a path on any output target; returns the first disagreement with the expected outcomes.
 fn drive<T: OutputTarget>(target: &mut T, ops: &[Value], fixed_cap: Option<usize>) -> Option<Value> {
     let mut resv: Vec<Reservation> = Vec::new();
@@ -45,6 +54,11 @@ fn drive<T: OutputTarget>(target: &mut T, ops: &[Value], fixed_cap: Option<usize
                 let written = op["len"].as_u64().unwrap_or(0) as usize;
                 let count = if k == 0 || written == 0 { usize::MAX } else { usize::MAX - written + 1 };
                 target.reserve_space(count).is_ok()
+            }
+            // through a reservation of another, longer target that lies beyond everything this one holds (or can hold)
+            "wf" => {
+                let beyond = fixed_cap.unwrap_or(op["len"].as_u64().unwrap_or(0) as usize + 64);
+                target.write_bytes_into_reserved_exact(&mut foreign_reservation(beyond), &payload).is_ok()
             }
             "wr" => {
                 let r = op["r"].as_u64().unwrap_or(0) as usize;
@@ -264,6 +278,8 @@ pub fn record(histories: u64, max_len: u64) {
                 let choice = rng.below(10);
                 let (op, k, r) = if rng.chance(1, 25) {
                     ("rh", rng.below(2) as usize, 0usize)
+                } else if rng.chance(1, 25) {
+                    ("wf", rng.below(2) as usize, 0usize)
                 } else if choice < 2 {
                     ("wb", 1usize, 0usize)
                 } else if choice < 5 {
@@ -279,6 +295,7 @@ pub fn record(histories: u64, max_len: u64) {
                 if slice_kind {
                     let ok = match op {
                         "rh" => st.reserve_space(huge(cap - st.remaining())).is_ok(),
+                        "wf" => st.write_bytes_into_reserved_exact(&mut foreign_reservation(cap), &payload).is_ok(),
                         "wb" => st.write_byte(byte(step, 1)).is_ok(),
                         "w" => st.write_bytes_exact(&payload).is_ok(),
                         "r" => st.reserve_space(k).map(|x| resv.push(x)).is_ok(),
@@ -291,6 +308,7 @@ pub fn record(histories: u64, max_len: u64) {
                         let mut vt = VecOutputTarget::from(&mut v);
                         match op {
                             "rh" => vt.reserve_space(huge(vlen)).is_ok(),
+                            "wf" => vt.write_bytes_into_reserved_exact(&mut foreign_reservation(vlen + 64), &payload).is_ok(),
                             "wb" => vt.write_byte(byte(step, 1)).is_ok(),
                             "w" => vt.write_bytes_exact(&payload).is_ok(),
                             "r" => vt.reserve_space(k).map(|x| resv.push(x)).is_ok(),
